@@ -160,3 +160,33 @@ func init() {
 		return &hx.Violation{Kind: kind, Detail: detail}
 	}
 }
+
+// newJob builds an operator job: reference error => the request must be refused (DError),
+// otherwise dom applies and exps are the expected outputs.
+func newJob(op string, attrs []hx.Attr, ins []*ref.T, exps []*ref.T, refErr error, dom hx.Domain, cmp hx.Cmp, route string, init []bool, desc string, extra ...string) opJob {
+	if refErr != nil {
+		dom, exps = hx.DError, nil
+	}
+	rt, in2 := route, init
+	if route == "model-init" {
+		rt = "model"
+		if in2 == nil {
+			in2 = make([]bool, len(ins))
+			for i := 1; i < len(ins); i++ {
+				in2[i] = true
+			}
+		}
+	}
+	nOut := len(exps)
+	if nOut == 0 {
+		nOut = 1
+	}
+	oc := &hx.OpCase{Op: op, Attrs: attrs, Inputs: hx.ToTJs(ins), NOut: nOut, Route: rt, Init: in2}
+	dt, shape := "none", []int{}
+	if len(ins) > 0 && ins[0] != nil {
+		dt, shape = ins[0].DT.String(), ins[0].Shape
+	}
+	tags := append([]string{"op=" + op, "dtype=" + dt, "route=" + route, "domain=" + string(dom), fmt.Sprintf("rank=%d", len(shape))}, extra...)
+	id := fmt.Sprintf("%s/%s/%s/%v/%s", op, dt, route, shape, desc)
+	return opJob{id: id, tags: tags, nt: true, oc: oc, dom: dom, exp: exps, cmp: cmp}
+}
